@@ -5,6 +5,7 @@ package main
 
 import (
 	"encoding/json"
+	"errors"
 	"flag"
 	"fmt"
 	"os"
@@ -76,15 +77,15 @@ func checkLine(line []byte) (*jsonstrict.Node, error) {
 }
 
 type enumerator struct {
-	r            *seq.Run
-	shard, n     int
-	idx          int64
-	alpha        *seqx.Alphabet
-	sites        []seqx.Site
-	siteHits     map[string]int64
-	methodHits   map[string]int64
-	check        func(p seqx.Program, out seqx.Output)
-	sampleEvery  int64
+	r           *seq.Run
+	shard, n    int
+	idx         int64
+	alpha       *seqx.Alphabet
+	sites       []seqx.Site
+	siteHits    map[string]int64
+	methodHits  map[string]int64
+	check       func(p seqx.Program, out seqx.Output)
+	sampleEvery int64
 }
 
 // onlyIndex (VERIF_ONLY_INDEX): re-execute exactly one program of the deterministic enumeration (replay).
@@ -248,6 +249,22 @@ func runC01() {
 				}
 			}
 		}
+		// (a'') every string over the byte alphabet (one byte or sequence per escaping / UTF-8 class; all
+		// concatenations, so that lead byte + continuation, surrogate halves, truncated sequences and
+		// escape + escape all occur) as value, key, message, error text, []byte, Stringer and Strs element
+		strLen := 2
+		if tier == "thorough" {
+			strLen = 3
+		}
+		strSites := pickSites(all, "event", "context", "array", "dict", "fieldsmap")
+		allStrings(seqx.TextAlphabet, strLen, func(s string) {
+			if r.TimeUp() {
+				return
+			}
+			en.chainAtSites([]seqx.Field{{M: "Str", Key: "k0", Val: s}}, nil, entries, []seqx.Final{{Kind: "Msg", Text: s}}, strSites)
+			en.chainAtSites([]seqx.Field{{M: "Str", Key: s, Val: "v"}}, nil, entries, []seqx.Final{send}, strSites)
+			en.chainAtSites([]seqx.Field{{M: "Strs", Key: "k0", Val: []string{"a", s}}, {M: "AnErr", Key: "k1", Val: errors.New(s)}, {M: "Bytes", Key: "k2", Val: []byte(s)}, {M: "Stringer", Key: "k3", Val: seqx.Str(s)}}, nil, entries, []seqx.Final{{Kind: "Msgf", Text: s}}, strSites[:3])
+		})
 		// (b) all windows of two symbols at every site
 		for _, a := range A {
 			for _, b := range A {
